@@ -205,11 +205,24 @@ pub fn strategy(prop: &'static str, thorough: bool) -> BoxedStrategy<CacheCase> 
                 });
             let reader_side = (rq, 1usize..3)
                 .prop_flat_map(move |(rq, nw)| {
-                    let op = prop_oneof![
+                    let nwb = nw as u8;
+                    let plain = prop_oneof![
                         6 => write_op(nw as u8, 5, false),
                         1 => any::<bool>().prop_map(read_any),
                     ];
-                    (Just(rq), Just(ws1(nw)), prop::collection::vec(op, 5..max_ops))
+                    // 1 case in 4 mixes dispose/unregister in; whether an instance held only through such a
+                    // notification occupies a max_instances slot is not modelled, so these cases are judged by the
+                    // invariant of the statement alone: what a read(ANY) returns never exceeds any limit
+                    let lifecycle = prop_oneof![
+                        8 => write_op(nw as u8, 5, false),
+                        1 => (0..nwb, 0u8..5).prop_map(|(w, inst)| Op::Dispose { w, inst }),
+                        1 => (0..nwb, 0u8..5).prop_map(|(w, inst)| Op::Unregister { w, inst }),
+                        3 => any::<bool>().prop_map(read_any),
+                    ];
+                    prop_oneof![
+                        3 => (Just(rq.clone()), Just(ws1(nw)), prop::collection::vec(plain, 5..max_ops)),
+                        1 => (Just(rq), Just(ws1(nw)), prop::collection::vec(lifecycle, 5..max_ops)),
+                    ]
                 })
                 .prop_map(move |(rq, writers, ops)| CacheCase { prop: prop.into(), rq, writers, ops, wlim: None });
             let writer_side = (
@@ -853,6 +866,8 @@ async fn scenario(c: CacheCase) -> Outcome {
     let inv24 = prop == "C24" && c.rq.min_sep_ms > 0;
     // C18 with dispose/unregister among the ops: invariant oracle on the data samples (see the generator)
     let inv18 = prop == "C18" && c.ops.iter().any(|o| matches!(o, Op::Dispose { .. } | Op::Unregister { .. }));
+    // C19 reader side with dispose/unregister among the ops: invariant oracle on what a read returns
+    let inv19 = prop == "C19" && c.ops.iter().any(|o| matches!(o, Op::Dispose { .. } | Op::Unregister { .. }));
     let mut classes: BTreeSet<String> = BTreeSet::new();
     let mut all_ops = c.ops.clone();
     all_ops.push(read_any(true));
@@ -882,6 +897,13 @@ async fn scenario(c: CacheCase) -> Outcome {
                 if inv18 {
                     let _ = model.on_write(*w, *inst, seq, (t.sec(), t.nanosec()));
                     classes.insert("lifecycle_notifications_with_keep_last".into());
+                    continue;
+                }
+                if inv19 {
+                    if let Drop::Rejected(rs) = model.on_write(*w, *inst, seq, (t.sec(), t.nanosec())) {
+                        classes.insert(format!("rejected:{}", rs.join("+")));
+                    }
+                    classes.insert("lifecycle_notifications_with_resource_limits".into());
                     continue;
                 }
                 if inv24 {
@@ -1004,6 +1026,39 @@ async fn scenario(c: CacheCase) -> Outcome {
                         }
                     }
                 };
+                if inv19 {
+                    if let Ok(samples) = &r {
+                        let mut insts: BTreeSet<[u8; 16]> = BTreeSet::new();
+                        let mut per: BTreeMap<u8, usize> = BTreeMap::new();
+                        let mut data = 0usize;
+                        for s in samples {
+                            // instances are counted over data samples: whether an instance held only through a
+                            // dispose/unregister notification occupies a max_instances slot is not stated (the
+                            // unchanged tree stores such a notification beyond max_instances)
+                            if s.data.is_some() {
+                                insts.insert(s.sample_info.instance_handle.into());
+                            }
+                            if let Some(dt) = &s.data {
+                                *per.entry(dt.id).or_default() += 1;
+                                data += 1;
+                            }
+                        }
+                        let over = if c.rq.max_instances.map(|m| insts.len() > m as usize).unwrap_or(false) {
+                            Some(("max_instances", format!("{} instances (limit {})", insts.len(), c.rq.max_instances.unwrap())))
+                        } else if c.rq.max_samples.map(|m| data > m as usize).unwrap_or(false) {
+                            Some(("max_samples", format!("{data} data samples (limit {})", c.rq.max_samples.unwrap())))
+                        } else if let (Some(m), Some((i, n))) = (c.rq.mspi, per.iter().max_by_key(|(_, n)| **n)) {
+                            if *n > m as usize { Some(("max_samples_per_instance", format!("{n} data samples of instance {i} (limit {m})"))) } else { None }
+                        } else {
+                            None
+                        };
+                        if let Some((which, what)) = over {
+                            out.verdict = Some((format!("C19:limits:holds-more-than-{which}"), format!("op #{opi}: one read(ANY) returned {what} (history with dispose/unregister notifications)")));
+                            break 'ops;
+                        }
+                    }
+                    continue;
+                }
                 if inv18 {
                     if let (Ok(samples), Some(d)) = (&r, c.rq.keep_last) {
                         let mut per: BTreeMap<u8, Vec<u32>> = BTreeMap::new();
